@@ -171,9 +171,28 @@ fn main() {
         t.violation("", what, case);
     };
 
+    // pre-flight: iteration over each of the 64 sets ends, from either side (everything below,
+    // and the library's own renderings, consume the iterator without a bound: an iterator that
+    // never ends would otherwise hang the check instead of being reported)
+    let mut ends = true;
+    for b in 0u8..64 {
+        let s = build1(b);
+        for back in [false, true] {
+            let mut it = s.iter();
+            let mut steps = 0;
+            while (if back { it.next_back() } else { it.next() }).is_some() {
+                steps += 1;
+                if steps > 8 {
+                    ends = false;
+                    bad(&mut t, format!("iteration over the set {b:06b} ({}) still yields items after 8 steps: it does not end", if back { "next_back" } else { "next" }), json!({"kind": "set", "bits": b}));
+                    break;
+                }
+            }
+        }
+    }
     // (the whole enumeration runs under a guard: a panic of the library is a violation, not a
     // crash of the checker)
-    let domain = std::panic::catch_unwind(std::panic::AssertUnwindSafe(|| {
+    let domain = if !ends { Ok(()) } else { std::panic::catch_unwind(std::panic::AssertUnwindSafe(|| {
     // --- all 64 sets: construction routes, len, is_empty, iteration, renderings
     for b in 0u8..64 {
         let s = build1(b);
@@ -415,7 +434,7 @@ fn main() {
             }
         }
     }
-    }));
+    })) };
     if let Err(p) = domain {
         let msg = p.downcast_ref::<String>().cloned().or_else(|| p.downcast_ref::<&str>().map(|s| s.to_string())).unwrap_or_default();
         t.violation("", format!("the library panicked during the enumeration of the 64 sets: {msg}"), json!({"kind": "panic"}));
